@@ -35,6 +35,7 @@ FOLLOWS_HELPERS = {
     "C01-R2": "(a)/(b) quantify over every access to _cmds in the header; the dispatch loop, the wq.empty() guard of the direct write and every wq insertion are followed into helpers and local lambdas with arguments bound to doSend's variables",
     "C01-R3": "queueing / closing / erasing statements are found in doSend's and writePending's helpers and local lambdas; the tail's range operands and the erase range are traced back through parameters, captures (by-value copies checked for staleness) and named locals to the write's own result variable",
     "C01-R4": "re-arm obligations follow a queue insertion out of the helper that holds it into its callers, and count a helper as re-arming only if every path through it does",
+    "C01-R6": "the data-callback invocation is found in readAvail or in the helper it hands the chunk to; pointer and length are traced through the helper's parameters to the read's buffer and result; the read calls themselves must be in readAvail (else refusal)",
     "C01-R7": "queue removals are enumerated in doSend and every helper it enters; the policy test is carried into the helper from its call site",
 }
 NOT_DECIDED = ["that the kernel / OpenSSL deliver what they accepted", "(int)size truncation for buffers > 2 GiB",
@@ -596,6 +597,29 @@ def _queued_what(fr, e):
     return ("other",)
 
 
+def _entries_outside(fb, cg, callee, root, _seen=None):
+    """names of the functions through which `callee` can be entered other than from `root`: a caller is accepted when it is `root`,
+    or a non-public, non-virtual member function of TcpEngine (a helper that holds part of root's body) every caller of which is
+    accepted in turn; anything else — a public entry point, a lambda, a function nobody calls, another class — is an outside entry"""
+    seen = _seen if _seen is not None else set()
+    bad = set()
+    callers = {f.name: f for (f, e, n) in cg.callers.get(callee, [])}
+    if not callers:
+        return {"(no caller)"}
+    for name, f in callers.items():
+        if name == root or name in seen:
+            continue
+        seen.add(name)
+        helper = f.kind != "lambda" and "$lambda" not in name and name.startswith(TE + "::") and f.file.endswith(FILE) and f.access in ("private", "protected") and \
+            not f.raw.get("virtual") and not f.raw.get("overrides") and name not in cg.overriders
+        if not helper:
+            bad.add(name)
+            continue
+        sub = _entries_outside(fb, cg, name, root, seen)
+        bad |= ({name} if sub == {"(no caller)"} else sub)
+    return bad
+
+
 # ------------------------------------------------------------------ R1
 
 def r1(ctx, r):
@@ -620,13 +644,15 @@ def r1(ctx, r):
     # the write path is entered only through the command queue (doSend from process, writePending from the epoll handler):
     # a direct call from send()/a callback path would overtake commands that were accepted earlier
     cg = ctx.cg()
-    for callee, allowed_callers in ((TE + "::doSend", {TE + "::process"}), (TE + "::writePending", {TE + "::onSession"})):
-        callers = {f.name for (f, e, n) in cg.callers.get(callee, [])}
+    # (a private helper that holds part of the dispatcher's body — `process` -> `dispatchCommand` -> doSend — is the dispatcher as
+    # long as nothing else can call it: _entries_outside)
+    for callee, root_ in ((TE + "::doSend", TE + "::process"), (TE + "::writePending", TE + "::onSession")):
+        outside = _entries_outside(fb, cg, callee, root_)
         r.instance()
-        r.expect(bool(callers) and callers <= allowed_callers, callee, None, "%s called outside the dispatch" % last(callee),
+        r.expect(not outside, callee, None, "%s called outside the dispatch" % last(callee),
                  "%s is called from %s; it may only be reached through %s — any other entry bypasses the FIFO command queue that defines the order of accepted sends" % (
-                     last(callee), sorted(short(c) for c in callers - allowed_callers), sorted(short(c) for c in allowed_callers)),
-                 okdesc="%s called only from %s" % (last(callee), ",".join(short(c) for c in allowed_callers)))
+                     last(callee), sorted(short(c) for c in outside), [short(root_)]),
+                 okdesc="%s reached only through %s" % (last(callee), short(root_)))
     # send() itself only copies and enqueues
     snd = fb.func(TE + "::send", file_suffix=FILE)
     r.instance()
@@ -680,7 +706,7 @@ def r2(ctx, r):
             return None
 
         def effects(e):
-            if e.kind == "dtor" and e.raw.get("t", "").startswith(("std::lock_guard", "std::unique_lock")):
+            if e.kind == "dtor" and e.raw.get("t", "").startswith(("std::lock_guard", "std::unique_lock", "std::scoped_lock", "std::shared_lock")):
                 return [("havoc", "closed")]
             return None
         pa = PredAbs(f, vocab, leaf, effects)
@@ -1161,6 +1187,8 @@ def r5(ctx, r):
     pa_os = PredAbs(os_, vocab, tleaf, eff, init=TLS_AXIOM, track_bools=True)
     calls = [e for e in os_.stmts() if e.node.get("k") == "mcall" and e.node.get("callee") == TE + "::writePending"]
     callers = {f.name for (f, e, n) in ctx.cg().callers.get(TE + "::writePending", [])}
+    if callers != {TE + "::onSession"} and not _entries_outside(fb, ctx.cg(), TE + "::writePending", TE + "::onSession"):
+        raise AnalysisBroken("writePending is reached from onSession through a helper (%s): the TLS-state precondition of its call is not carried through helpers by this clause" % sorted(short(c) for c in callers))
     r.instance()
     r.expect(callers == {TE + "::onSession"} and calls, os_, None, "writePending callers", "writePending is called from %s; its TLS-state precondition is established only in onSession" % sorted(callers),
              okdesc="writePending called only from onSession")
@@ -1183,62 +1211,92 @@ def r5(ctx, r):
 
 # ------------------------------------------------------------------ R6
 
+def _bufferview_nodes(call_node):
+    """the two argument nodes of the BufferView{ptr, len} constructed inside a callback invocation (None if there is none)"""
+    for x in walk(call_node):
+        if x.get("k") in ("ctor", "ilist", "cast") and "BufferView" in (x.get("t") or "") + (x.get("cls") or ""):
+            args = x.get("args") or x.get("vals") or []
+            if x.get("k") == "cast":
+                inner = x.get("v")
+                if inner is not None and inner.get("k") in ("ilist", "ctor"):
+                    args = inner.get("args") or inner.get("vals") or []
+            args = [a for a in args if not a.get("def")]
+            if len(args) == 2:
+                return args
+    return None
+
+
 def r6(ctx, r):
+    fb = ctx.fb()
     ra = _fn(ctx, "readAvail")
+    root = _Frame(fb, ra)
     reads = [e for e in ra.stmts() if e.node.get("k") == "call" and e.node.get("callee") in READ_CALLS]
     if len(reads) < 2:
         raise AnalysisBroken("readAvail: %d read calls" % len(reads))
     nvl = [_result_var(ra, w) for w in reads]
     if None in nvl or len({(x["n"], x["d"]) for x in nvl}) != 1:
         raise AnalysisBroken("readAvail: read results are not kept in one variable")
-    nv, nvd = nvl[0]["n"], nvl[0]["d"]
-    invs = [(e, t) for (e, t) in common.fn_invocations(ra)]
+    nvv = nvl[0]
+    nv = nvv["n"]
+    # the data callback may be invoked in readAvail itself or in a helper it hands the chunk to (followed: _events)
+    invs = [(fr, e) for (fr, e) in _events(root) if e.node.get("k") == "opcall" and e.node.get("op") == "()" and e.node.get("callee") == "std::function::operator()"]
     r.instance()
     if len(invs) != 1:
         r.fail(ra, None, "data callback sites", "readAvail invokes the data callback at %d sites, expected exactly one per iteration" % len(invs))
         return
-    inv = invs[0][0]
-    bv = common.bufferview_args(inv.node)
+    ifr, inv = invs[0]
     # the buffer is the one the read calls fill (their `<buffer>.data()` argument), whatever it is called
     bufs = set()
     for rd in reads:
         for a_ in rd.node["args"]:
             a_ = strip_casts(strip_wrappers(a_))
             if a_ is not None and a_.get("k") == "mcall" and last(a_.get("callee", "")) == "data" and strip_casts(a_.get("obj") or {}).get("k") == "var":
-                bufs.add(show(a_).replace(" ", ""))
+                bufs.add((strip_casts(a_["obj"])["n"], strip_casts(a_["obj"]).get("d")))
     if len(bufs) != 1:
         raise AnalysisBroken("readAvail: the read calls do not fill one local buffer (%s)" % sorted(bufs))
-    bufdata = bufs.pop()
-    r.expect(bv == [bufdata, nv], ra, inv, "callback payload",
-             "the data callback is not given (%s, %s) of the read that just returned: %s" % (bufdata, nv, show(inv.node)[:120]), okdesc="onData(buf.data(), n)")
+    bufn, bufd = bufs.pop()
+    # … and the callback gets (that buffer's data(), the read's result), traced through the helper's parameters / named locals
+    bvn = _bufferview_nodes(inv.node)
+    okp = False
+    if bvn is not None:
+        fr0, p0, at0, st0 = _resolve(ifr, bvn[0], inv)
+        p0 = strip_casts(p0)
+        okp = st0 is None and fr0.parent is None and p0 is not None and p0.get("k") == "mcall" and last(p0.get("callee", "")) == "data" and \
+            strip_casts(p0.get("obj") or {}).get("k") == "var" and strip_casts(p0["obj"]).get("d") == bufd and _is_var(ifr, bvn[1], nvv, inv)
+    r.expect(okp, ifr.f, inv, "callback payload",
+             "the data callback is not given (%s.data(), %s) of the read that just returned: %s" % (bufn, nv, show(inv.node)[:120]), okdesc="onData(buf.data(), n)")
     vocab = Vocab(["npos", "cb"])
 
-    def leaf(n):
-        if n.get("k") == "bin" and n["op"] in (">", "<=", "<", "=="):
-            l, rr = strip_casts(n["lhs"]), strip_casts(n["rhs"])
-            if l.get("k") == "var" and l["n"] == nv and l.get("d") == nvd and const_value(rr) == 0:
-                return {">": A("npos"), "<=": Not(A("npos")), "<": Not(A("npos")), "==": Not(A("npos"))}[n["op"]]
-        if n.get("k") == "mcall" and last(n.get("callee", "")).startswith("operator bool") and (n.get("obj") or {}).get("k") == "var" and "std::function" in n["obj"].get("t", ""):
-            return A("cb")
-        return None
+    def mkleaf(fr):
+        def leaf(n):
+            if n.get("k") == "bin" and n["op"] in (">", "<=", "<", "=="):
+                rr = strip_casts(n["rhs"])
+                if const_value(rr) == 0 and _is_var(fr, n["lhs"], nvv, fr.f.elem_for(n) if n.get("id") is not None else None):
+                    return {">": A("npos"), "<=": Not(A("npos")), "<": Not(A("npos")), "==": Not(A("npos"))}[n["op"]]
+            # copy-then-invoke: the null test on the copied std::function is treated as taken (DESIGN 1.3 A2)
+            if n.get("k") == "mcall" and last(n.get("callee", "")).startswith("operator bool") and (n.get("obj") or {}).get("k") == "var" and "std::function" in n["obj"].get("t", ""):
+                return A("cb")
+            return None
+        return leaf
+    leaf = mkleaf(root)
+    hpa = {}
 
-    def eff(e):
-        if e in reads:
-            return [("havoc", "npos")]
-        return None
-    pa = PredAbs(ra, vocab, leaf, eff, init=A("cb"))
+    def delivers(fr, x):
+        """element x is the callback invocation, or a call into a helper every feasible path of which (callback present) reaches it"""
+        if fr is ifr and x is inv:
+            return True
+        ch = _enter(fr, x)
+        if ch is None:
+            return False
+        if id(ch) not in hpa:
+            hpa[id(ch)] = None      # (guards re-entry)
+            pah = PredAbs(ch.f, vocab, mkleaf(ch), lambda e: None, init=A("cb"))
+            hpa[id(ch)] = search(ch.f, ("entry",), "exit", stop=lambda y: delivers(ch, y), eh=False, edge_ok=lambda b, si: pah.edge_feasible(b, si)) is None
+        return bool(hpa[id(ch)])
     # a positive read always reaches the callback before the next read / the exit
     for rd in reads:
         r.instance()
 
-        def goal(x):
-            return (x in reads or False)
-        w = None
-        # paths from this read with npos to (next read | exit) that avoid the callback
-        pa_pos = pa
-
-        def edge_ok(b, si):
-            return pa.edge_feasible(b, si)
         # force n > 0 after this read: separate abstraction
         def eff_pos(e, rd=rd):
             if e is rd:
@@ -1247,14 +1305,14 @@ def r6(ctx, r):
                 return [("havoc", "npos")]
             return None
         pa2 = PredAbs(ra, vocab, leaf, eff_pos, init=A("cb"))
-        w = search(ra, rd, lambda x: x in reads, stop=lambda x: x is inv, eh=False, edge_ok=lambda b, si: pa2.edge_feasible(b, si))
-        w = w or search(ra, rd, "exit", stop=lambda x: x is inv, eh=False, edge_ok=lambda b, si: pa2.edge_feasible(b, si))
+        w = search(ra, rd, lambda x: x in reads, stop=lambda x: delivers(root, x), eh=False, edge_ok=lambda b, si: pa2.edge_feasible(b, si))
+        w = w or search(ra, rd, "exit", stop=lambda x: delivers(root, x), eh=False, edge_ok=lambda b, si: pa2.edge_feasible(b, si))
         r.expect(w is None, ra, rd, "positive read not delivered", "bytes returned by %s (n > 0) can be discarded without reaching the data callback" % rd.node["callee"],
                  witness=witness_str(ra, w), okdesc="%s: n > 0 always reaches the data callback" % rd.node["callee"])
     # after delivering, the loop keeps reading (edge-triggered: drain until would-block)
     r.instance()
-    w = search(ra, inv, "exit", stop=lambda x: x in reads or (x.kind == "stmt" and x.node.get("k") == "mcall" and x.node.get("callee") == TE + "::closeNow"), eh=False)
-    r.expect(w is None, ra, inv, "read loop stops early", "after delivering a chunk readAvail can return without reading again: with edge-triggered epoll the rest of the data is never read",
+    w = search(ra, ifr.top(inv), "exit", stop=lambda x: x in reads or (x.kind == "stmt" and x.node.get("k") == "mcall" and x.node.get("callee") == TE + "::closeNow"), eh=False)
+    r.expect(w is None, ra, ifr.top(inv), "read loop stops early", "after delivering a chunk readAvail can return without reading again: with edge-triggered epoll the rest of the data is never read",
              witness=witness_str(ra, w), okdesc="after onData the loop reads again")
 
 
